@@ -94,7 +94,11 @@ func main() {
 				if i >= int64(len(sc)+nVal) {
 					ps := parts[i-int64(len(sc)+nVal)]
 					if ps.kind == "compact" {
-						return runBuild(ps, tier, sched.Options{MaxPreemptions: partCompactBound, AllDeviations: true, MaxExecutions: partExec, Horizon: 100000})
+						b := partCompactBound
+						if len(ps.src.Spec) > 6 {
+							b = 0 // one execution per partition for the larger sources (each compact execution costs ~80 ms)
+						}
+						return runBuild(ps, tier, sched.Options{MaxPreemptions: b, AllDeviations: true, MaxExecutions: partExec, Horizon: 100000})
 					}
 					return runBuild(ps, tier, sched.Options{MaxPreemptions: partBasicBound, MaxExecutions: 10 * partExec, Horizon: 100000, SinglePhase: true})
 				}
@@ -134,7 +138,7 @@ func main() {
 					opts = sched.Options{MaxPreemptions: compactBound, AllDeviations: true, MaxExecutions: maxExec, Horizon: 100000}
 				}
 				return runBuild(s, tier, opts)
-			}}, fmt.Sprintf("%d build scenarios (%d sources x 2 builders: configs with cores 2..16 run natively; sched with 2 cores under the controlled scheduler: basic builds every interleaving with at most %d preemptions, deviations confined to one phase between quiescent points, cap %d executions; compact builds every schedule with at most %d departures from the default schedule, cap %d executions) + %d partition scenarios (every order-preserving split of each source's features over 2 delivering goroutines x 2 builders under the controlled scheduler: basic at most %d preemptions confined to one phase, compact at most %d departures from the default schedule (0 = one goroutine's list after the other's), cap %d executions) + %d validator scenarios (every ordered delivery of 2..k of 10 menu features (4 paths: closed ccw, open, missing point, closed cw; 6 areas over them, one over a path never delivered) to 2 goroutines (k<=%d) and 3 goroutines (k<=%d), every interleaving, no bound)", len(sc), len(srcs), basicBound, 20*maxExec, compactBound, maxExec, len(parts), partBasicBound, partCompactBound, partExec, len(vals), 5, map[bool]int{false: 4, true: 5}[tier == "thorough"])
+			}}, fmt.Sprintf("%d build scenarios (%d sources x 2 builders: configs with cores 2..16 run natively; sched with 2 cores under the controlled scheduler: basic builds every interleaving with at most %d preemptions, deviations confined to one phase between quiescent points, cap %d executions; compact builds every schedule with at most %d departures from the default schedule, cap %d executions) + %d partition scenarios (every order-preserving split of each source's features over 2 delivering goroutines x 2 builders under the controlled scheduler: basic at most %d preemptions confined to one phase, compact at most %d departures from the default schedule for sources of up to 6 features and 0 for larger ones (0 = one goroutine's list after the other's), cap %d executions) + %d validator scenarios (every ordered delivery of 2..k of 10 menu features (4 paths: closed ccw, open, missing point, closed cw; 6 areas over them, one over a path never delivered) to 2 goroutines (k<=%d) and 3 goroutines (k<=%d), every interleaving, no bound)", len(sc), len(srcs), basicBound, 20*maxExec, compactBound, maxExec, len(parts), partBasicBound, partCompactBound, partExec, len(vals), 5, map[bool]int{false: 4, true: 5}[tier == "thorough"])
 		},
 	})
 }
